@@ -20,7 +20,17 @@ impl Prop for C15 {
     fn run_case(&mut self, cx: &CaseCx, out: &mut Out) {
         let mut r = xo(cx.seed);
         let max_lines = *r.pick(&[5, 20, 60]);
-        let c = gen_case(&mut r, max_lines, &|_, _| {});
+        let mut c = gen_case(&mut r, max_lines, &|_, _| {});
+        if r.chance(1, 3) {
+            // hand-shaped blocking / bypass / replace machines: queued packets get re-labelled and released
+            let n = r.range(1, 3);
+            let ms: Vec<_> = (0..n).map(|_| crate::props::c16::directed_machine(&mut r, 16)).collect();
+            if r.chance(1, 2) {
+                c.client = ms;
+            } else {
+                c.server = ms;
+            }
+        }
         out.evaluations += 1;
         match run_sim(&c) {
             SimOutcome::Panic { msg, loc, sig } => out.violation(format!("C15/panic/{sig}"), format!("{msg} at {loc}"), c.to_json()),
